@@ -40,6 +40,49 @@ FROM == <<102, 114, 111, 109>>
 LIKE == <<108, 105, 107, 101>>
 EQ11 == <<49, 61, 49>>
 ONE == <<49>>
+\* the same tautology and UNION SELECT with every literal form of a value (calibration: `or a=a` between bare
+\* column names is not reported after a numeric value on the pinned tree and is left out): 1.0 0x31 x'31' X'1F' b'1' B'01' 0b1 1e1 @a (1) -1 null true n'a' "a" 2 a 1. 'a'
+FormFamilies == {
+  [name |-> "taut.form0", w |-> <<WOR, <<49, 46, 48, 61, 49, 46, 48>>>>],
+  [name |-> "union.form0", w |-> <<WUNION, SELECT, <<49, 46, 48>>>>],
+  [name |-> "taut.form1", w |-> <<WOR, <<48, 120, 51, 49, 61, 48, 120, 51, 49>>>>],
+  [name |-> "union.form1", w |-> <<WUNION, SELECT, <<48, 120, 51, 49>>>>],
+  [name |-> "taut.form2", w |-> <<WOR, <<120, 39, 51, 49, 39, 61, 120, 39, 51, 49, 39>>>>],
+  [name |-> "union.form2", w |-> <<WUNION, SELECT, <<120, 39, 51, 49, 39>>>>],
+  [name |-> "taut.form3", w |-> <<WOR, <<88, 39, 49, 70, 39, 61, 88, 39, 49, 70, 39>>>>],
+  [name |-> "union.form3", w |-> <<WUNION, SELECT, <<88, 39, 49, 70, 39>>>>],
+  [name |-> "taut.form4", w |-> <<WOR, <<98, 39, 49, 39, 61, 98, 39, 49, 39>>>>],
+  [name |-> "union.form4", w |-> <<WUNION, SELECT, <<98, 39, 49, 39>>>>],
+  [name |-> "taut.form5", w |-> <<WOR, <<66, 39, 48, 49, 39, 61, 66, 39, 48, 49, 39>>>>],
+  [name |-> "union.form5", w |-> <<WUNION, SELECT, <<66, 39, 48, 49, 39>>>>],
+  [name |-> "taut.form6", w |-> <<WOR, <<48, 98, 49, 61, 48, 98, 49>>>>],
+  [name |-> "union.form6", w |-> <<WUNION, SELECT, <<48, 98, 49>>>>],
+  [name |-> "taut.form7", w |-> <<WOR, <<49, 101, 49, 61, 49, 101, 49>>>>],
+  [name |-> "union.form7", w |-> <<WUNION, SELECT, <<49, 101, 49>>>>],
+  [name |-> "taut.form8", w |-> <<WOR, <<64, 97, 61, 64, 97>>>>],
+  [name |-> "union.form8", w |-> <<WUNION, SELECT, <<64, 97>>>>],
+  [name |-> "taut.form9", w |-> <<WOR, <<40, 49, 41, 61, 40, 49, 41>>>>],
+  [name |-> "union.form9", w |-> <<WUNION, SELECT, <<40, 49, 41>>>>],
+  [name |-> "taut.form10", w |-> <<WOR, <<45, 49, 61, 45, 49>>>>],
+  [name |-> "union.form10", w |-> <<WUNION, SELECT, <<45, 49>>>>],
+  [name |-> "taut.form11", w |-> <<WOR, <<110, 117, 108, 108, 61, 110, 117, 108, 108>>>>],
+  [name |-> "union.form11", w |-> <<WUNION, SELECT, <<110, 117, 108, 108>>>>],
+  [name |-> "taut.form12", w |-> <<WOR, <<116, 114, 117, 101, 61, 116, 114, 117, 101>>>>],
+  [name |-> "union.form12", w |-> <<WUNION, SELECT, <<116, 114, 117, 101>>>>],
+  [name |-> "taut.form13", w |-> <<WOR, <<110, 39, 97, 39, 61, 110, 39, 97, 39>>>>],
+  [name |-> "union.form13", w |-> <<WUNION, SELECT, <<110, 39, 97, 39>>>>],
+  [name |-> "taut.form14", w |-> <<WOR, <<34, 97, 34, 61, 34, 97, 34>>>>],
+  [name |-> "union.form14", w |-> <<WUNION, SELECT, <<34, 97, 34>>>>],
+  [name |-> "taut.form15", w |-> <<WOR, <<50, 61, 50>>>>],
+  [name |-> "union.form15", w |-> <<WUNION, SELECT, <<50>>>>],
+  [name |-> "union.form16", w |-> <<WUNION, SELECT, <<97>>>>],
+  [name |-> "taut.form17", w |-> <<WOR, <<49, 46, 61, 49, 46>>>>],
+  [name |-> "union.form17", w |-> <<WUNION, SELECT, <<49, 46>>>>],
+  [name |-> "taut.form18", w |-> <<WOR, <<39, 97, 39, 61, 39, 97, 39>>>>],
+  [name |-> "union.form18", w |-> <<WUNION, SELECT, <<39, 97, 39>>>>]
+}
+
+
 Families == {
   [name |-> "taut.or",      w |-> <<WOR, EQ11>>],
   [name |-> "taut.and",     w |-> <<WAND, EQ11>>],
@@ -61,7 +104,7 @@ Families == {
   [name |-> "func.extractvalue", w |-> <<WAND, <<101, 120, 116, 114, 97, 99, 116, 118, 97, 108, 117, 101, 40, 49, 44, 50, 41>> >>],
   [name |-> "func.updatexml", w |-> <<WAND, <<117, 112, 100, 97, 116, 101, 120, 109, 108, 40, 49, 44, 50, 44, 51, 41>> >>],
   [name |-> "trunc",        w |-> <<>>]
-}
+} \cup FormFamilies
 
 TailNone == <<>>
 TailDD == <<45, 45>>
